@@ -124,6 +124,22 @@ def tie_T(run):
                            "the hand model (Proofs/C13_gen_equiv.v) and evaluated against the implementation on every run")
         return "check_both", ["From DV Require Import Corr.C13_gen."], False
     run.extra_cov["tie"] = "translator succeeded but the regenerated definitions are no longer (provably) the model"
+    try:        # name the equivalence lemma / theorem that no longer checks
+        src = {}
+        for w in (run.broken[-1].get("where") or []) if run.broken else []:
+            m = re.match(r"(.+\.v):(\d+)$", w)
+            if not m:
+                continue
+            fn, line = m.group(1), int(m.group(2))
+            if fn not in src:
+                src[fn] = open(os.path.join(vlib.COQ, fn)).read().split("\n")
+            names_ = re.findall(r"(?m)^\s*(?:Lemma|Theorem)\s+([A-Za-z0-9_']+)", "\n".join(src[fn][:line]))
+            if names_:
+                run.notes.append("tie (T) broke at %s (%s:%d): the regenerated definition is not provably the hand model"
+                                 % (names_[-1], fn, line))
+                run.extra_cov["broken_equivalence"] = names_[-1]
+    except Exception:  # noqa
+        pass
     try:        # keep the offending text for the replay
         with open(os.path.join(run.rundir, "C13_gen.v.broken"), "w") as f:
             f.write(open(GEN).read())
